@@ -40,6 +40,7 @@ type c09Case struct {
 	Rendezvous bool   `json:"rendezvous"`
 	Sched      uint64 `json:"sched"`
 	Run        int    `json:"run"`
+	Focus      string `json:"focus,omitempty"` // name of the program half of all calls render ("" = none): every program is hammered against itself in some run
 }
 
 // ---- failpoint scheduler (monitor state is atomic; it must not itself be a race)
@@ -178,8 +179,8 @@ func init() {
 			"porcupine (v1.3.0) decides linearizability of each recorded history against a register-per-file model; a checker timeout is inconclusive",
 			"callers share data read-only and call Fill only on the per-request template returned by New()/Load(), as docs/concurrency.md prescribes",
 		},
-		TimeoutS: func(ctx core.Ctx) int { return ctx.Pick(1200, 7200) },
-		Finish:   c09Finish,
+		TimeoutS:      func(ctx core.Ctx) int { return ctx.Pick(1200, 7200) },
+		Finish:        c09Finish,
 		MinNonTrivial: func(ctx core.Ctx) int { return 20 },
 	})
 }
@@ -189,7 +190,7 @@ func (p *c09) Rule() string {
 	return "case = one short run on one shared engine: N in {2,4,8,16} goroutines released by a barrier onto a cold (or pre-warmed) engine, each rendering ~25 programs of the shared catalogue (all features incl. failing programs) plus per-iteration previously unseen expressions and dotted paths, through Vue.Render/RenderFragment on one Vue or New()/Load().Fill().Render/RenderFile/RenderString on one base Template, with private or one shared read-only data value; failpoints at the engine's hook points inject seeded yields/sleeps and rendezvous (two goroutines enter the same cache window together); 'lin' runs add 2 editors rewriting page/component files underneath 6 renderers and record a history checked by porcupine; every call's bytes+error are compared with the call run alone; race-detector reports are collected per worker; non-trivial = run in which >=2 goroutines overlapped; distinct by (run configuration, observed interleaving signature at the cache points)"
 }
 
-func (p *c09) Plan(ctx core.Ctx) int { return ctx.Pick(160, 3000) }
+func (p *c09) Plan(ctx core.Ctx) int { return ctx.Pick(320, 3000) }
 
 func (p *c09) Gen(ctx core.Ctx, i int) any {
 	r := core.NewRNG(ctx.Seed, 0xC09, uint64(i))
@@ -201,6 +202,10 @@ func (p *c09) Gen(ctx core.Ctx, i int) any {
 	}
 	c.Kind = "stress"
 	c.Mode = []string{"vue", "template", "mixed"}[r.Intn(3)]
+	if i%4 != 3 {
+		// rotate the focus through the catalogue (i advances by 1, lin runs take every 5th slot)
+		c.Focus = p.progs[(i-i/5)%len(p.progs)].Name
+	}
 	return c
 }
 
@@ -231,6 +236,17 @@ func (p *c09) Exec(ctx core.Ctx, cc any) core.Obs {
 	eng := newCatEngine(fsys)
 
 	// plans
+	var focus *Prog
+	for i := range p.progs {
+		if c.Focus != "" && p.progs[i].Name == c.Focus {
+			focus = &p.progs[i]
+		}
+	}
+	if focus != nil {
+		o.Cell("focus/" + focus.Name)
+	} else {
+		o.Cell("focus/none")
+	}
 	plans := make([][]*c09Call, c.N)
 	shared := map[string]any{}
 	var freshProgs []*Prog
@@ -248,6 +264,9 @@ func (p *c09) Exec(ctx core.Ctx, cc any) core.Obs {
 				call = c09Call{prog: fp, fresh: true}
 			} else {
 				call = c09Call{prog: &p.progs[r.Intn(len(p.progs))]}
+				if focus != nil && r.Bool() {
+					call.prog = focus
+				}
 			}
 			switch c.Mode {
 			case "vue":
